@@ -214,35 +214,51 @@ Definition judge_c03two : list Z -> list Z := judge_two_gen false false true.
 (* ------------------------------------------------------------------------------------------ *)
 (* c10reuse: after every command the driver's board must be the board of a fresh game with exactly
    the moves of THAT command *)
-Fixpoint judge_reuse_cmds (p0 : pos) (k : nat) (l : list Z) (out : list Z) (i : Z) : list Z :=
+(* cnt: judge the repetition count (C10); hsh: Hash()==calculateHash() and the history length (C04);
+   the attributes of the board (all six FEN fields = the position the command describes) are always
+   judged: that is C02's clause for positions set up through `position ... moves ...`, and the
+   precondition of C06 through UCI (the root handed to the search is the root the GUI set) *)
+Fixpoint judge_reuse_cmds (cnt hsh : bool) (p0 : pos) (k : nat) (l : list Z) (out : list Z) (i : Z) : list Z :=
   match k with
   | O => match out with [] => [1] | _ => [0; 13; 0] end
   | S k' =>
       match l with
-      | _kind :: n :: r =>
+      | kind :: n :: r =>
           let c := Z.to_nat n in
-          let ms := map Z.to_N (firstn c r) in
-          match first_illegal p0 ms 0 with
-          | Some _ => [0; 15; i]
-          | None =>
-              let h := spec_hist p0 ms in
-              let attrs := firstn 15 out in
-              match skipn 15 out with
-              | tf :: ok :: len :: out' =>
-                  if negb (attrs_match attrs (last h p0)) then [0; 8; i]
-                  else if negb (attrs_consistent attrs) then [0; 12; i]
-                  else if negb (tf =? rep_count (map pos_key h)) then [0; 1; i]
-                  else if negb (ok =? 1) then [0; 5; i]
-                  else if negb (len =? Z.of_nat (S c)) then [0; 6; i]
-                  else judge_reuse_cmds p0 k' (skipn c r) out' (i + 1)
-              | _ => [0; 13; 0]
+          let payload := firstn c r in
+          let root_ms : option (pos * list N) :=
+            if 3 <=? kind then
+              match decode_board payload with
+              | Some (bx, ms) => Some (abs bx, map Z.to_N ms)
+              | None => None
+              end
+            else Some (p0, map Z.to_N payload) in
+          match root_ms with
+          | None => [0; 13; 0]
+          | Some (pr, ms) =>
+              if negb (valid pr) then [0; 14; i] else
+              match first_illegal pr ms 0 with
+              | Some _ => [0; 15; i]
+              | None =>
+                  let h := spec_hist pr ms in
+                  let attrs := firstn 15 out in
+                  match skipn 15 out with
+                  | tf :: ok :: len :: out' =>
+                      if negb (attrs_match attrs (last h pr)) then [0; 8; i]
+                      else if negb (attrs_consistent attrs) then [0; 12; i]
+                      else if cnt && negb (tf =? rep_count (map pos_key h)) then [0; 1; i]
+                      else if hsh && negb (ok =? 1) then [0; 5; i]
+                      else if hsh && negb (len =? Z.of_nat (S (length ms))) then [0; 6; i]
+                      else judge_reuse_cmds cnt hsh p0 k' (skipn c r) out' (i + 1)
+                  | _ => [0; 13; 0]
+                  end
               end
           end
       | _ => [0; 13; 0]
       end
   end.
 
-Definition judge_c10reuse (io : list Z) : list Z :=
+Definition judge_reuse_gen (cnt hsh : bool) (io : list Z) : list Z :=
   match decode_board io with
   | Some (b, k :: rest) =>
       let p0 := abs b in
@@ -253,6 +269,10 @@ Definition judge_c10reuse (io : list Z) : list Z :=
         | O => l
         | S k' => match l with _ :: n :: r => skip_cmds k' (skipn (Z.to_nat n) r) | _ => [] end
         end in
-      judge_reuse_cmds p0 (Z.to_nat k) rest (skip_cmds (Z.to_nat k) rest) 0
+      judge_reuse_cmds cnt hsh p0 (Z.to_nat k) rest (skip_cmds (Z.to_nat k) rest) 0
   | _ => [0; 13; 0]
   end.
+
+Definition judge_c10reuse : list Z -> list Z := judge_reuse_gen true true.
+(* only "the board is the position this command describes" (clauses 8 12; 13 14 15): for C02 and C06 *)
+Definition judge_reuse_attrs : list Z -> list Z := judge_reuse_gen false false.
